@@ -243,7 +243,7 @@ def check_map(ctx, fi):
     P = ctx.P
     name = fi.name
     a, b, kind = sig_of(name)
-    ev = Evaluator(P)
+    ev = Evaluator(P, inline=lambda q, d: q == MOD + '.augment_slice')
     exits = ev.run(fi)
     ctx.paths += len(exits)
     c1 = 'returns %s on the %s level for a %s index' % ('an index set' if kind == 'set' else 'an index or None', b, a)
@@ -452,6 +452,60 @@ COMPOSED = {
 }
 
 
+BASE_STAGE = {'project_cycles_to_samples': 'cycle_vect', 'project_subset_to_cycles': 'subset_vect',
+              'project_chain_to_subset': 'chain_vect'}
+EXPECT_CHAIN = {'project_subset_to_samples': ['project_subset_to_cycles', 'project_cycles_to_samples'],
+                'project_chain_to_cycles': ['project_chain_to_subset', 'project_subset_to_cycles'],
+                'project_chain_to_samples': ['project_chain_to_subset', 'project_subset_to_cycles',
+                                             'project_cycles_to_samples']}
+
+
+def _stage_chain(P, t, depth=0):
+    """A projection written as a composition of the others: the base stages applied to `vals`, innermost first, each
+    with the label vector it uses - composed projections are expanded through their own (single) return term.
+    -> (stages [(name, vector term)], innermost values term) or None"""
+    from ..paths import substitute
+    if not (t[0] == 'call' and t[1].startswith(MOD + '.project_')) or depth > 4:
+        return [], t
+    name = t[1].split('.')[-1]
+    kw = dict(t[3])
+    if name in BASE_STAGE:
+        inner = _stage_chain(P, kw.get('vals', NONE), depth + 1)
+        if inner is None:
+            return None
+        return inner[0] + [(name, kw.get(BASE_STAGE[name]))], inner[1]
+    f = P.funcs.get(t[1])
+    if f is None:
+        return None
+    rets = [e for e in Evaluator(P).run(f) if e.kind == 'return']
+    if len(rets) != 1 or not (rets[0].value[0] == 'call' and rets[0].value[1].startswith(MOD + '.project_')):
+        # a composed projection with its own loop (the pinned project_subset_to_samples): its documented chain
+        if name in EXPECT_CHAIN:
+            inner = _stage_chain(P, kw.get('vals', NONE), depth + 1)
+            if inner is None:
+                return None
+            return inner[0] + [(s_, kw.get(BASE_STAGE[s_])) for s_ in EXPECT_CHAIN[name]], inner[1]
+        return None
+    body = substitute(rets[0].value, {S(k_): v_ for k_, v_ in kw.items()})
+    return _stage_chain(P, body, depth + 1)
+
+
+def _chain_ok(P, fi, name):
+    """True / False / None: the (single) return term of fi is the documented composition of base projections"""
+    rets = [e for e in Evaluator(P).run(fi) if e.kind == 'return']
+    if len(rets) != 1:
+        return None
+    ch = _stage_chain(P, rets[0].value)
+    if ch is None or not ch[0]:
+        return None
+    stages, inner = ch
+    if inner != S('vals'):
+        return False
+    if [s_ for s_, v_ in stages] != EXPECT_CHAIN[name]:
+        return False
+    return all(v_ == S(BASE_STAGE[s_]) for s_, v_ in stages)
+
+
 def rule_projections(ctx, rid):
     P = ctx.P
     m = P.module(MOD)
@@ -502,6 +556,13 @@ def rule_projections(ctx, rid):
                                 bad = 'per-cycle values come from %s' % show(src)[:60]
                         elif src != S('vals'):
                             bad = 'values come from %s' % show(src)[:40]
+        composed = _chain_ok(P, fi, name) if (n == 0 and not bad and name in EXPECT_CHAIN) else None
+        if composed is True:
+            # written as the composition of the two single-level projections: the loop, the lookup and the NaN start
+            # are those of the stages (checked on them)
+            ctx.passed(rid, fi, c1, 'composition ' + ' then '.join(EXPECT_CHAIN[name]))
+            ctx.passed(rid, fi, c2, 'through the last stage')
+            continue
         if bad:
             ctx.violation(rid, fi, c1, bad)
         elif n == 0:
@@ -530,6 +591,9 @@ def rule_projections(ctx, rid):
         exits = [e for e in Evaluator(P).run(fi) if e.kind == 'return']
         c = 'is the composition %s' % ' then '.join(x for x, _ in chain)
         ok = len(exits) == 1
+        if ok and _chain_ok(P, fi, name) is True:
+            ctx.passed(rid, fi, c)
+            continue
         if ok:
             t = exits[0].value
             # outermost call is the last stage
